@@ -25,11 +25,18 @@ def find : Data → Key → Option (Int × Int)
   | [], _ => none
   | e :: rest, k => if e.key = k then some (e.val, e.exp) else find rest k
 
+/-- remove every entry of `k` -/
+def erase : Data → Key → Data
+  | [], _ => []
+  | e :: rest, k => if e.key = k then erase rest k else e :: erase rest k
+
 def insert (d : Data) (k : Key) (v exp : Int) : Data :=
-  ⟨k, v, exp⟩ :: d.filter (fun e => e.key ≠ k)
+  ⟨k, v, exp⟩ :: d.erase k
 
 /-- `retain(|_, (_, expiry)| expiry > now)` -/
-def sweep (d : Data) (now : Int) : Data := d.filter (fun e => e.exp > now)
+def sweep : Data → Int → Data
+  | [], _ => []
+  | e :: rest, now => if e.exp > now then e :: sweep rest now else sweep rest now
 
 def get (d : Data) (k : Key) (now : Int) : Option Int :=
   match d.find k with
@@ -227,5 +234,46 @@ def AnyStore.ops : StoreOps AnyStore where
     | .periodic s => let r := Periodic.ops.setnx s k v ttl now; (.periodic r.1, r.2)
     | .adaptive s => let r := Adaptive.ops.setnx s k v ttl now; (.adaptive r.1, r.2)
     | .prob s => let r := Prob.ops.setnx s k v ttl now; (.prob r.1, r.2)
+
+end TcVerif
+
+namespace TcVerif
+
+/-- one call of the `Store` trait -/
+inductive SOp where
+  | get (k : Key) (now : Int)
+  | cas (k : Key) (old new ttl now : Int)
+  | setnx (k : Key) (v ttl now : Int)
+deriving Repr, DecidableEq
+
+def SOp.now : SOp → Int
+  | .get _ now => now
+  | .cas _ _ _ _ now => now
+  | .setnx _ _ _ now => now
+
+inductive SRes where
+  | val (o : Option Int)
+  | flag (b : Bool)
+deriving Repr, DecidableEq
+
+def applyOp {σ : Type} (S : StoreOps σ) (s : σ) : SOp → σ × SRes
+  | .get k now => (s, .val (S.get s k now))
+  | .cas k old new ttl now => let r := S.cas s k old new ttl now; (r.1, .flag r.2)
+  | .setnx k v ttl now => let r := S.setnx s k v ttl now; (r.1, .flag r.2)
+
+def runOps {σ : Type} (S : StoreOps σ) : σ → List SOp → List SRes
+  | _, [] => []
+  | s, op :: rest => let r := applyOp S s op; r.2 :: runOps S r.1 rest
+
+/-- timestamps never decrease and start at or after `t0` -/
+def NonDecreasingFrom : Int → List Int → Prop
+  | _, [] => True
+  | t0, t :: rest => t0 ≤ t ∧ NonDecreasingFrom t rest
+
+instance instDecNonDecreasingFrom : (t0 : Int) → (l : List Int) → Decidable (NonDecreasingFrom t0 l)
+  | _, [] => isTrue trivial
+  | t0, t :: rest =>
+    have : Decidable (NonDecreasingFrom t rest) := instDecNonDecreasingFrom t rest
+    inferInstanceAs (Decidable (t0 ≤ t ∧ NonDecreasingFrom t rest))
 
 end TcVerif
